@@ -31,20 +31,22 @@ CHECKS = {
         design="DESIGN.md §5 C03",
         technique="Coq proof (sorting + first-match lemmas, per-method walk theorems) + rule-text correspondence + packet-walk oracle on emitted rules"),
     "C10": dict(
-        text=("22 theorems over all event sequences of the datagram state machines (Props/C10.v): query relayed verbatim on a fresh "
+        text=("32 theorems over all event sequences of the datagram state machines (Props/C10.v): query relayed verbatim on a fresh "
               "identifier, resolver target and at most 3 attempts with retry only after NET_ERRS, first reply relayed once and handler retired, "
               "reply to the recorded asker from the recorded destination, at most one datagram per query over whole runs, exact lazy expiry, "
-              "no exception for any socket outcome or identifier exhaustion. Tied to /repo by running the real client ondns/dns_done/"
-              "expire_connections and the real server.main loop with DnsProxy on scripted sockets and a virtual clock, every step compared."),
-        note="modelled not verified: UDP socket semantics, getaddrinfo, CPython dict ordering. c10_no_cross is conditional on the stated no_stale_reuse hypothesis; the whole-server no-crash statement is proved per code path (c10_server_no_crash_full kept as an unproved Definition).",
+              "no exception for any socket outcome or identifier exhaustion; WHOLE SERVER: an invariant relating handlers, dnshandlers, udphandlers and mux.channels holds in every reachable state of the real loop structure, "
+              "and the server loop can only raise AssertionError / ValueError / OverflowError, each for a cause readable off the peer's message (c10_server_crash_classified), never for a conforming peer (c10_server_no_crash_conforming, c10_server_no_crash_full); "
+              "COMPOSED client+server over two FIFO links: under no-stale-allocation a reply only ever reaches the asker of its own query (c10_no_cross_composed), refuted without the hypothesis (MAX_CHANNEL=1 witness, replayed on the real code). Tied to /repo by running the real client ondns/dns_done/"
+              "expire_connections and the real server.main loop with DnsProxy on scripted sockets and a virtual clock, every step compared; implementation-only oracles on random composed schedules (cross-delivery, reply lost before 30 s) with one virtual clock serving time.time and time.monotonic from different epochs."),
+        note="modelled not verified: UDP socket semantics, getaddrinfo, CPython dict ordering. The composed system is checked on the real code, not extracted; a mixed DNS+UDP end-to-end no-crash theorem is missing.",
         design="DESIGN.md §5 C10",
         technique="Coq proof (invariants over event sequences of an executable state machine with virtual time) + step-by-step differential correspondence"),
     "C11": dict(
-        text=("18 theorems (Props/C11.v): header round trip for every address text, port and payload incl. commas, one captured datagram = "
+        text=("21 theorems (Props/C11.v): header round trip for every address text, port and payload incl. commas, one captured datagram = "
               "one sendto with identical payload to the dialled address on the association's single socket, replies delivered once to the source, "
               "shared channel per source with deadline refresh, idle expiry closing both ends and a fresh identifier afterwards, frame size bound, "
-              "no exception for any socket outcome. Same correspondence harness as C10 with the real tproxy recv_udp/send_udp on scripted cmsg data."),
-        note="modelled not verified: UDP socket semantics, tproxy transparent bind; same address-family constants on both ends is an assumption. c11_server_no_crash_full kept as an unproved Definition.",
+              "no exception for any socket outcome; the whole server never raises for UDP scripts of a conforming client (c11_server_no_crash_full; the bound ch <= 65535 is a wire-format fact: c11_server_unbounded_channel_refuted). Same correspondence harness as C10 with the real tproxy recv_udp/send_udp on scripted cmsg data."),
+        note="modelled not verified: UDP socket semantics, tproxy transparent bind; same address-family constants on both ends is an assumption.",
         design="DESIGN.md §5 C11",
         technique="Coq proof (codec round trip + state-machine invariants) + step-by-step differential correspondence"),
     "C13": dict(
@@ -67,12 +69,12 @@ CHECKS = {
         design="DESIGN.md §5 C14",
         technique="Coq proof (step machine over file-system primitives, induction over crash index / history / schedule) + primitive-trace correspondence"),
     "C16": dict(
-        text=("23 theorems over all argument texts (Props/C16.v): parse_subnetport/parse_ipport always yield a value or a usage error; "
+        text=("31 theorems over all argument texts (Props/C16.v): parse_subnetport/parse_ipport always yield a value or a usage error; "
               "parse(render spec) returns the resolver's address, the given or maximal width and the port range for IPv4-form and IPv6-form hosts; "
-              "width range check; every numbers-and-dots IPv4 spelling resolves to the dotted quad of its value; listen and remote specifications "
+              "width range check; every numbers-and-dots IPv4 spelling resolves to the dotted quad of its value; every accepted IPv6 spelling (any 8 words, both printers, upper case, dotted tail) resolves to the canonical text, which reads back as the same words and is a fixed point (c16_canonical_v6_full, c16_canonical_v6, symbolic sweep over the 256 zero masks); [v6]:port and name:port (c16_hostport_port_full, c16_hostport_v6_port); listen and remote specifications "
               "decompose into user/password/host/port; command line overrides the environment. Tied to /repo by running the real parsers and "
               "argparse on ~15k generated spellings, mutants and garbage with getaddrinfo real for numeric literals and tabled for names."),
-        note="modelled not verified: Python re semantics (re-implemented recognisers, differential-tested), glibc inet_aton/inet_pton/inet_ntop, argparse dispatch. c16_canonical_v6_full and c16_hostport_port_full are kept as unproved Definitions (covered by correspondence and a 6561-case kernel sweep).",
+        note="modelled not verified: Python re semantics (re-implemented recognisers, differential-tested), glibc inet_aton/inet_pton/inet_ntop, argparse dispatch.",
         design="DESIGN.md §5 C16",
         technique="Coq proof (structural recognisers equal to the regexes on rendered inputs, totality by case analysis) + differential correspondence with ipaddress/inet_pton oracles"),
     "C19": dict(
@@ -118,16 +120,19 @@ CHECKS = {
         technique="Coq proof (total decision function with explicit Crash/OsError constructors proved unreachable; consistency by case analysis over the port search) + exhaustive cross-product correspondence"),
 
     "C04": dict(
-        text=("14 obligations (Props/C04.v). Proved for every initial kernel state (foreign rules, other instances), every plan, every cut and every "
+        text=("25 theorems (Props/C04.v). Proved for every initial kernel state (foreign rules, other instances), every plan, every cut and every "
               "fault set (nat/nft/tproxy): everything not named for the session's ports is unchanged and in order at every intermediate state; a cut "
               "before GO issues no command; once no own object remains the final state is exactly the initial one; the chain-listing parse is exact "
-              "membership (sshuttle-1230 vs sshuttle-12300). The clause 'nothing own remains and a later session can start, for every k-th failing "
-              "command and every cut' is proved only as kernel-evaluated sweeps over stated sample plans and start states (…_all_exits_partial; the "
-              "general statement c04_all_exits_full is kept as an unproved Definition); as-found tproxy and pf/FreeBSD refuted with witnesses (F9, F17: "
-              "fixed; F41, F42: known findings). Tied to /repo by running the real firewall.main + real method modules with every external command answered by the extracted kernel model as a co-process, for every cut and every fault index."),
-        note="modelled not verified: iptables/nft/pfctl command semantics (DESIGN Appendix B; not validated against the real kernel in this check), SIGKILL/SIGTERM modelled as a dialogue cut. The all-exits clause is partial (finite sweeps with the bounds in the statements).",
+              "membership (sshuttle-1230 vs sshuttle-12300). The clause 'every exit path: nothing own remains and a later session can start, for every k-th failing "
+              "command and every cut' is PROVED IN GENERAL for nat without owner match, tproxy (repaired) and nft (c04_nat_all_exits, c04_tproxy_all_exits, c04_nft_all_exits: every plan body, every clean start state with foreign rules/chains/other instances, "
+              "every failing command index, every cut; abstract own-object state + simulation, Proofs/FwLife_gen_*.v); for nat with --user/--group it is proved only as kernel-evaluated sweeps (…_partial; the remaining general "
+              "statement c04_all_exits_full excludes exactly the F41 command and is kept as an unproved Definition). Logging is total: helpers.log returns for every OSError/ValueError raised by its streams, and then the session with all its log points "
+              "(debug1 before every command, log after a failed nonfatal command, every debug call of firewall.main incl. inside finally) issues the same commands and ends in the same state as without logging, for every verbosity and every outcome of every stream operation "
+              "(c04_log_total, c04_log_faults_invisible, c04_nat_all_exits_hangup; the narrowed clause of seeded change C04-b is refuted by c04_log_narrow_refuted); as-found tproxy and pf/FreeBSD refuted with witnesses (F9, F17: "
+              "fixed; F41, F42: known findings). Tied to /repo by running the real firewall.main + real method modules with every external command answered by the extracted kernel model as a co-process, for every cut and every fault index, under a logging environment (verbosity 0/1/2 x k-th stderr/stdout operation raising OSError(EIO)/BrokenPipeError/ValueError/..., once or from then on); real helpers.log vs the model's log_call for every exception class and position; fail-closed ast check of its except clauses."),
+        note="modelled not verified: iptables/nft/pfctl command semantics (DESIGN Appendix B; not validated against the real kernel in this check), SIGKILL/SIGTERM modelled as a dialogue cut. The all-exits clause is general for nat (no owner)/tproxy/nft, finite sweeps for nat with owner match; pf is covered by the harness and the partial identity theorem only.",
         design="DESIGN.md §5 C04",
-        technique="Coq proof (frame invariant over all command sequences; finite sweeps by vm_compute for the all-exits clause) + trace/state correspondence with fault injection at every command index"),
+        technique="Coq proof (frame invariant over all command sequences; general all-exits theorems by simulation to an abstract own-object state; finite sweeps by vm_compute for nat with owner match) + trace/state correspondence with fault injection at every command index"),
 
     "C17": dict(
         text=("21 theorems (Props/C17.v): for all ip < 2^32 and w <= 32 the computed network has host bits cleared and network bits kept (and this is what "
@@ -158,19 +163,23 @@ CHECKS = {
               "exemption C06 states) and for every flow, bytes handed to the destination are a prefix of bytes read from the application and vice versa; "
               "while the receiving socket is not shut down, delivered ++ buffered far ++ payload in flight ++ buffered near = bytes read (nothing lost, duplicated, "
               "reordered); a step of one flow changes nothing of another. Proved through a per-flow pipeline invariant (Stream_view.Vinv) preserved by every step "
-              "(Stream_flow.step_Ginv, ~3000 lines). The liveness sentence (eventual delivery under fairness) is NOT proved (kept as c01_eventual_delivery_full); the "
-              "harness checks delivery at quiescence on every generated schedule. Tied to /repo by running the REAL ssnet.runonce/Proxy/Mux/SockWrapper/MuxWrapper, "
+              "(Stream_flow.step_Ginv, ~3000 lines). The safety half of 'eventually delivered' IS proved (c01_quiescent_all_delivered, Proofs/Stream_quiet.v): in every reachable state in which nothing is "
+              "pending (StreamQuiet.quiescentb: links and queues empty, no wait set holds a descriptor an eager environment reports ready) every byte read has been handed to the other socket unless that end "
+              "aborted or is still connecting; that the loops REACH such a state (a decreasing variant for the drain, Stream_quiet.eager_drain_full / c01_eventual_delivery_full) is NOT proved; the "
+              "harness checks delivery at quiescence on every generated schedule and compares the model's quiescentb with the real loops' calm. Tied to /repo by running the REAL ssnet.runonce/Proxy/Mux/SockWrapper/MuxWrapper, "
               "client.onaccept_tcp and server.main's new_channel on fake sockets, logging every micro-step with its socket outcomes, replaying the log on the extracted model and comparing the full state of both ends after every iteration."),
-        note="modelled not verified: kernel TCP sockets (outcomes are the environment's answers; send after shutdown fails with EPIPE), select readiness, the frame-level ssh link (its byte-level refinement is C07). Ghost flow numbers are model-only. Eventual delivery is unproved.",
+        note="modelled not verified: kernel TCP sockets (outcomes are the environment's answers; send after shutdown fails with EPIPE), select readiness, the frame-level ssh link (its byte-level refinement is C07). Ghost flow numbers are model-only. Reaching quiescence (termination of the drain) is unproved.",
         design="DESIGN.md §5 C01",
         technique="Coq proof (inductive pipeline invariant over all micro-step sequences, abstract view transition system + projection lemma) + micro-step-log differential correspondence"),
     "C02": dict(
-        text=("6 theorems (Props/C02.v) on the same model and invariant as C01: if shutdown(SHUT_WR) was issued on the receiving socket and no socket call of that end failed, "
+        text=("10 theorems (Props/C02.v) on the same model and invariant as C01: if shutdown(SHUT_WR) was issued on the receiving socket and no socket call of that end failed, "
               "every byte read at the sending end was delivered first and the sender stopped reading (both directions, every reachable state without stale delivery); no stream "
               "payload follows a flow's EOF on the wire; the two directions are independent (half-close loses nothing); EOF/STOP are never echoed; a flow declared finished has both "
               "sockets shut, both buffers empty and both mux flags set. F22 (data-less half-close before the remote connect completes) is refuted with a kernel-evaluated witness and "
-              "listed as a known finding, F20 (lingering handler) likewise observed on the real code. The quiescence sentence (no stuck state under a fair schedule) is NOT proved (c02_no_stuck_state_full)."),
-        note="as C01. Bounded tear-down work and no-stuck-state are checked only by the harness's quiescence oracle.",
+              "listed as a known finding, F20 (lingering handler) likewise observed on the real code. The quiescence sentence is proved in its safety form over quiescent states (Proofs/Stream_quiet.v): no undelivered data anywhere in the pipeline (c02_no_stuck_data); "
+              "every remaining handler waits for its socket, for its peer, for a pending connect, or has the F20 shape (c02_quiet_handler_shape); no handler waits for a peer that is gone or that waits for it "
+              "(c02_no_stuck_state_partial); the unrestricted sentence is refuted with the F20 witness (c02_no_stuck_state_refuted). That the loops reach a quiescent state is NOT proved (eager_drain_full)."),
+        note="as C01. Bounded tear-down work and reaching quiescence are checked only by the harness's quiescence oracle.",
         design="DESIGN.md §5 C02",
         technique="Coq proof (same inductive invariant; vi_clean / vi_dae clauses) + micro-step-log differential correspondence with close-order scenarios"),
     "C06": dict(
@@ -189,10 +198,12 @@ CHECKS = {
         design="DESIGN.md §5 C08",
         technique="Coq proof (total step function with explicit Crash constructor; case analysis + registration/frame invariants) + fault-injection correspondence"),
     "C09": dict(
-        text=("6 theorems (Props/C09.v): while an end waits for the acknowledgement no batch of callbacks/pre_selects of any flows queues a byte of stream payload, otherwise at most 2048 bytes "
+        text=("9 theorems (Props/C09.v): while an end waits for the acknowledgement no batch of callbacks/pre_selects of any flows queues a byte of stream payload, otherwise at most 2048 bytes "
               "per callback (so one loop iteration overshoots by at most 2048 x callbacks; runonce issues <= 4 per connection); check_fullness queues exactly one PING and pauses; every PING "
               "handled is answered regardless of the pause state; a PONG resumes and resets the budget; with latency control off no end is ever paused, in any run. "
-              "'Every request is eventually answered' (liveness) is not proved; the harness's quiescence oracle reports a stuck transfer."),
+              "'Every such request is eventually answered, so transfers always resume': proved in invariant form (Proofs/Stream_quiet.v) — while an end is paused its probe is OUTSTANDING (the PING 'rttest' is in its queue or on the link, or the PONG is in the peer's queue or on the link back: c09_outstanding, all runs, all I/O); "
+              "hence with all queues and links drained no end is paused (c09_never_wedged) and a paused end is never part of a quiescent state (c09_paused_not_quiescent). That the probe's journey terminates (the drain reaches quiescence) is not proved; "
+              "the harness's quiescence oracles report a stuck transfer and any complete message left undispatched in a Mux input buffer."),
         note="as C01. The per-connection constant relies on runonce calling a Proxy at most once per entry of its 4-element socks list (checked by the correspondence, not proved).",
         design="DESIGN.md §5 C09",
         technique="Coq proof (effect lemmas on the Mux queue, induction over event batches and runs) + correspondence with small buffer sizes"),
